@@ -14,7 +14,9 @@ from .engine import Engine, Ctx, Frame, Oblig, HRef
 class Case:
     """One specification case: when(c) -> guard over the pre-state; kind return|raise; post(c) -> {name: Bool}."""
     def __init__(self, name, when=None, kind='return', exc=None, post=None, result=None, tags=None, exc_fields=None,
-                 update=None, group=None, result_fresh=None, residual=None, forbid=False):
+                 update=None, group=None, result_fresh=None, residual=None, forbid=False, implicit_ok=False):
+        self.implicit_ok = implicit_ok     # a catch-all raise case (exc='Exception') also accepts exceptions that an operation of the
+        #                                    function's OWN body raised implicitly (KeyError of a subscript, TypeError of a call ...)
         self.forbid = forbid               # no path of this kind may satisfy the guard (e.g. 'must raise here')
         self.residual = residual           # c -> {clause name: weaker Bool}: what must still hold of a clause listed as a known finding
         self.result_fresh = result_fresh   # call sites: builds a fresh result value that `post` then constrains
@@ -297,6 +299,7 @@ def apply_at_call(eng, ctx, contract, obj, node, args, kwargs, qual, self_val=No
         else:
             fields = case.exc_fields(cc) if case.exc_fields else {}
             cc.exc = Exc(case.exc, [], fields)
+            cc.exc.origin = 'callee-contract'
         post = case.post(cc) if case.post else {}
         for pn, pt in post.items():
             c.assume(pt)
@@ -493,6 +496,11 @@ def _verify_body(eng, contract, target, mod, cname, node, res, seed, timeout_ms,
         for case, g in zip(contract.cases, guards):
             if (case.kind == 'return' and o.kind == 'return') or \
                     (case.kind == 'raise' and o.kind == 'raise' and _exc_matches(o.val, case.exc)):
+                if case.kind == 'raise' and case.exc in ('Exception', 'BaseException') and not case.implicit_ok and not case.forbid \
+                        and getattr(o.val, 'origin', None) is None and not getattr(o.val, 'from_app', False):
+                    # an exception that an operation of this body raised by itself is not "a handler raised": a case that
+                    # means to allow it names its class or says implicit_ok
+                    continue
                 matching.append((case, g))
         allow = [g for cs_, g in matching if not cs_.forbid]
         add('%s/outcome.%s' % (tname, okind), list(c.pc), z3.Or(*allow) if allow else z3.BoolVal(False), 'outcome')
